@@ -65,7 +65,7 @@ CONFIGS["C22"] = dict(
     level_text="seeded search over histories x fault sequences: JWTs minted with every combination of signing key (published / "
                "published later / never published / RSA), algorithm (matching, HS256 keyed with the public key, none, "
                "mismatched), kid, iss, aud, exp and jti are presented to the real ValidateJWT before and after revocation, "
-               "un-revocation, cache purge, cache/JWKS TTL expiry, token expiry and key rotation, while the simulated identity "
+               "un-revocation, cache purge, cache/JWKS TTL expiry, token expiry, key rotation and key withdrawal, while the simulated identity "
                "provider behind the transport seam is up, down or slower than the client's timeout; safety oracle: accepted "
                "implies every condition of the statement holds at that moment; a narrow bounded-liveness oracle: a fully valid "
                "token is accepted while the IdP is reachable.",
@@ -76,14 +76,16 @@ CONFIGS["C22"] = dict(
     quick=dict(runs=3000, per_proc=200, budget_s=240),
     thorough=dict(runs=200000, per_proc=2000, budget_s=1500),
     det_seeds=24,
-    rule="histories of 3-9 phases x 1-3 operations (mint/present/revoke/un-revoke/purge/rotate/IdP up-down-slow) over 4 token "
+    rule="histories of 3-9 phases x 1-3 operations (mint/present/revoke/un-revoke/purge/rotate/withdraw-key/IdP up-down-slow) over 4 token "
          "slots with 1-2 client tasks, boundary-biased time advances (30 s refresh throttle, 5 m / 1 h TTL, 10 m / 2 h token "
-         "lifetimes); non-trivial = >=2 presentations; distinct = distinct (scheduler decisions, outcomes) hash",
+         "lifetimes); one run in four ends with a key-withdrawal scenario (the IdP stops publishing a key, the "
+         "key-set cache runs out and is refreshed, a NEW token signed with the withdrawn key is presented); non-trivial = >=2 presentations; distinct = distinct (scheduler decisions, outcomes) hash",
     real=["oauth.ValidateJWT, parseAndValidateJWT, selectVerificationKey, JWKS cache/refresh/throttle", "golang-jwt/v5", "tokens revocation list on SQLite", "caches"],
     stubbed=["identity provider: simulated node behind http.DefaultTransport (existing seam)", "oauth.Initialize is bypassed: configuration and JWKS URL are set directly (discovery not exercised)",
              "time: synctest fake clock", "sync: scheduling shim"],
-    assumptions=["acceptance is only demanded for tokens whose kid names a key published from the start, while the IdP is reachable"],
-    required_probes=["presentations", "accepted", "idp-unreachable-or-timeout"],
+    assumptions=["acceptance is only demanded for tokens whose kid names a key published from the start and never withdrawn, while the IdP is reachable",
+                 "a withdrawn key counts as 'not published' only once the IdP has delivered a key set without it to this server and for tokens minted after that delivery (earlier verifications may legitimately be cached)"],
+    required_probes=["presentations", "accepted", "idp-unreachable-or-timeout", "withdrawn_key_presentations_judged"],
 )
 
 BCRYPT_KNOB = ["internal/server/auth/hash.go:bcryptCost=4"]
